@@ -51,6 +51,19 @@ PARAM = {
     "shared::util::itime::IDate::from_day_of_year": {1: (-9999, 9999)},
     "shared::util::itime::IDate::from_day_of_year_no_leap": {1: (-9999, 9999)},
     "shared::util::itime::ITimestamp::from_second": {1: UNIX_S},
+    # documented preconditions of panicking (non-Result) public constructors that
+    # fallible paths call internally: assumed inside, checked at every internal
+    # call site (external misuse of a `# Panics` API is out of scope)
+    "civil::time::Time::constant": {1: (0, 23), 2: (0, 59), 3: (0, 59), 4: (0, 999_999_999)},
+    "civil::time": {1: (0, 23), 2: (0, 59), 3: (0, 59), 4: (0, 999_999_999)},
+    "civil::date::Date::at": {2: (0, 23), 3: (0, 59), 4: (0, 59), 5: (0, 999_999_999)},
+    "civil::datetime::DateTime::constant": {4: (0, 23), 5: (0, 59), 6: (0, 59), 7: (0, 999_999_999)},
+    "civil::datetime": {4: (0, 23), 5: (0, 59), 6: (0, 59), 7: (0, 999_999_999)},
+    "tz::offset": {1: (-25, 25)},
+    "signed_duration::SignedDuration::from_hours": {1: (-2_562_047_788_015_215, 2_562_047_788_015_215)},
+    "signed_duration::SignedDuration::from_mins": {1: (-153_722_867_280_912_930, 153_722_867_280_912_930)},
+    "tz::offset::Offset::constant": {1: (-25, 25)},
+    "timestamp::Timestamp::constant": {1: UNIX_S, 2: (-NS, NS)},
     # unchecked entrances used by tz::tzif on validated TZif fields
     "tz::offset::Offset::from_seconds_unchecked": {1: (-93599, 93599)},
 }
